@@ -243,8 +243,10 @@ class SNAXXDMAAccelerator(
                                 cst = arith.ConstantOp.from_int_and_width(0, i32)
                                 result.append(([cst], cst.result))
                     else:
-                        cst = arith.ConstantOp.from_int_and_width(0, i32)
-                        result.append(([cst], cst.result))
+                        # no kernel to configure the extension for: all of its CSRs are set to 0
+                        for _ in range(ext.csr_length):
+                            cst = arith.ConstantOp.from_int_and_width(0, i32)
+                            result.append(([cst], cst.result))
 
         return result
 
